@@ -54,7 +54,7 @@ AuthValues ==
      m \in Bodies(MaxLen), u \in {Word(0), <<255, 255, 255, 254>>},
      g \in {[i \in 1..k |-> Word(i)] : k \in {0, 1, 2, 3}}}
 
-Classes(lim) == {WOf(lim - 1), WOf(lim), WOf(lim + 1), W(32768, 0), W(65535, 65535)}
+Classes(lim) == {WOf(lim - 1), WOf(lim), WOf(lim + 1), W(32768, 0), W(65535, 65532), W(65535, 65533), W(65535, 65535)}
 ClsValues ==
   UNION {{[w |-> w, avail |-> a, lim |-> lim] : w \in Classes(lim), a \in {0, lim + 3, lim + 8}} :
             lim \in {LimString, LimAuth, LimFH, LimGids, LimRecord}}
